@@ -30,6 +30,12 @@ class VmMath:
     def reset(self) -> None:
         self._eval_stack.clear()
 
+    def eval_depth(self) -> int:
+        return self._eval_stack.depth()
+
+    def trim_eval(self, depth) -> None:
+        self._eval_stack.trim(depth)
+
     def push(self, srce) -> None:
         value = None
         if isinstance(srce, Number) or srce is Operand.NULL:
